@@ -14,6 +14,7 @@ import (
 	"github.com/vipnode/vipnode/v2/pool"
 	"github.com/vipnode/vipnode/v2/pool/store"
 	"verif/sim/kernel"
+	"verif/sim/seams"
 )
 
 func init() {
@@ -28,6 +29,12 @@ func init() {
 		Doc:  "the first keep-alives a pool process ever bills (balance manager as pool.go has just built it) arrive at once from different clients, with as little harness between the requests as possible (no wrappers around the store besides the yield points): -race build only, the oracle is the race detector plus every keep-alive being acknowledged",
 		Real: worldReal, Stub: worldStub,
 		Run: runC10ColdStart,
+	})
+	Register(&Scenario{
+		Name: "c02_failed_update_vs_connect", Property: "C02", MaxSteps: 20000, Quick: 200, Thorough: 10000,
+		Doc:  "a light client's keep-alive that is going to fail in billing (one injected storage error) overlaps the same client registering again over a new connection: the keep-alive fails as a whole, so afterwards the client's check-in must be the one of its registration - the next keep-alive bills from there, not from before it (judged in the interleavings where the registration is saved after the keep-alive has checked in)",
+		Real: worldReal, Stub: worldStub,
+		Run: runC02FailedUpdateVsConnect,
 	})
 	Register(&Scenario{
 		Name: "c02_billing_conc", Property: "C02", MaxSteps: 30000, Quick: 250, Thorough: 20000,
@@ -1242,4 +1249,116 @@ func runC10ColdStart(s *kernel.Sim) {
 	}
 	s.MarkNontrivial()
 	s.ProbeN("c10.cold_start_keepalives", acked)
+}
+
+// runC02FailedUpdateVsConnect: see the scenario's Doc.
+func runC02FailedUpdateVsConnect(s *kernel.Sim) {
+	cfg := WorldCfg{Driver: []string{"memory", "badger"}[s.Choose("driver", 2)], Hosts: 1, Clients: 1, Wallets: 0, Interval: time.Minute, Price: big.NewInt(1000), StoreYields: 3}
+	w := NewWorld(s, cfg)
+	for _, c := range []string{"store", "storeret", "txn", "postwrite"} {
+		s.SetYield(c, 0)
+	}
+	d := NewDirector(w)
+	var host, client *Actor
+	for _, a := range w.Actors {
+		if a.IsHost {
+			host = a
+		} else {
+			client = a
+		}
+	}
+	setupDone := false
+	s.Go("director", func() {
+		d.Connect(host, "", "", false)
+		d.Connect(client, "", "", false)
+		w.Inner.AddNodeBalance(store.NodeID(client.ID), big.NewInt(100000000))
+		d.Update(client, []string{host.ID}, 1)
+		d.Advance(time.Duration(2+d.choose("adv", 20)) * 30 * time.Second)
+		d.Update(host, nil, 2) // the host stays fresh
+		setupDone = true
+	})
+	if r := s.Drive(kernel.DriveOpts{IdleCap: time.Hour}); r != kernel.Done || !setupDone {
+		if r != kernel.Stopped {
+			s.Violate("liveness", "setup never finishes", "setup ended %s", r)
+		}
+		return
+	}
+	// what the store is asked, in order (the two requests are told apart by the order of their own calls)
+	type rec struct {
+		op  string
+		seq int
+	}
+	var trace []rec
+	var tmu sync.Mutex
+	w.YS.Trace = func(r seams.OpRecord) {
+		tmu.Lock()
+		trace = append(trace, rec{r.Op, len(trace)})
+		tmu.Unlock()
+	}
+	// the keep-alive's credit to the host is going to fail
+	w.YS.FailPermille = map[string]int{"AddNodeBalance": 1000}
+	w.YS.FailBudget = 1
+	s.SetYield("store", cfg.StoreYields)
+	s.SetYield("storeret", 1)
+	s.SetYield("op", 3)
+	connU := w.Dial(client)
+	connK := w.Dial(client)
+	base := time.Now().UnixNano()
+	var errU, errK error
+	var k0, k1 time.Time
+	s.Go("keepalive", func() {
+		s.Gate("keepalive")
+		var resp pool.UpdateResponse
+		errU = connU.Agent.Call(s.Ctx, &resp, "vipnode_update", client.Signed("vipnode_update", base+1, pool.UpdateRequest{PeerInfo: PeerInfos([]string{host.ID}), BlockNumber: 3})...)
+	})
+	s.Go("register", func() {
+		s.Gate("register")
+		k0 = time.Now()
+		var resp pool.ConnectResponse
+		errK = connK.Agent.Call(s.Ctx, &resp, "vipnode_connect", client.Signed("vipnode_connect", base+2, client.ConnectReq("", ""))...)
+		k1 = time.Now()
+	})
+	if r := s.Drive(kernel.DriveOpts{IdleCap: time.Minute}); r != kernel.Done {
+		if r != kernel.Stopped {
+			s.Violate("liveness", "requests never finish", "ended %s", r)
+		}
+		return
+	}
+	w.YS.Trace = nil
+	s.MarkNontrivial()
+	if errK != nil || errU == nil || isLowBalance(errU) || isVerifyFailed(errU) || isVerifyFailed(errK) {
+		return // not the case this scenario is about (nonce order, or the keep-alive did not reach the failing call)
+	}
+	// order of the registration's SetNode and the keep-alive's check-in: UpdateNodePeers saves it, the GetNode that
+	// follows is where the keep-alive learns what was saved
+	setNode, checkin, readBack := -1, -1, -1
+	for _, r := range trace {
+		if r.op == "SetNode" && setNode < 0 {
+			setNode = r.seq
+		}
+		if r.op == "UpdateNodePeers" && checkin < 0 {
+			checkin = r.seq
+		}
+		if r.op == "GetNode" && checkin >= 0 && readBack < 0 {
+			readBack = r.seq
+		}
+	}
+	if checkin < 0 || setNode < 0 {
+		return
+	}
+	if readBack < 0 || setNode < readBack {
+		// the registration was saved before the keep-alive knew its own check-in: it cannot tell the two apart (or
+		// puts back the check-in it read at its start, which is from before the registration) - not repairable
+		// without an atomic operation in the store (DESIGN 7, review R1); not judged
+		s.Probe("c02.registration_saved_before_the_failing_keepalive_knew_its_checkin")
+		return
+	}
+	s.Probe("c02.registration_saved_while_the_failing_keepalive_was_past_its_checkin")
+	n, err := w.Inner.GetNode(store.NodeID(client.ID))
+	if err != nil {
+		panic(err)
+	}
+	if n.LastSeen.Before(k0) || n.LastSeen.After(k1) {
+		s.Violate("all_or_nothing", "a failed keep-alive put an old check-in over the one of a registration that was accepted meanwhile", "keep-alive failed (%v), registration accepted between %s and %s; the client's check-in is now %s: the next keep-alive bills %s that lie before the registration", errU, k0.Format("15:04:05.000000"), k1.Format("15:04:05.000000"), n.LastSeen.Format("15:04:05.000000"), k0.Sub(n.LastSeen))
+	}
 }
